@@ -189,6 +189,8 @@ func checkC08(c *Check) {
 	// programs in the container keep the default disposition of the limit signals
 	checkIgnoredSignals(c, "7/limit-signals-not-ignored", []string{"SIGXCPU", "SIGXFSZ"}, nil)
 	c.Expect("7/limit-signals-not-ignored", 1)
+	// the command's own re-classification from the measured usage
+	checkRunprogFinalVerdict(c, "8/runprog-final-verdict")
 }
 
 func checkGetRlimit(c *Check, fn *ssa.Function) {
